@@ -215,7 +215,10 @@ class _FuncWalker:
         return loc if LEVELS[loc] >= LEVELS[self.inherited] else self.inherited
 
     def site(self, node, op, why):
-        self.an.add_site(self.rel, self.qual, node, op, self.level(node), why, self.label_text(node), self.func.name)
+        text = self.label_text(node)
+        if op == "truth":
+            text = f"bool({text})"
+        self.an.add_site(self.rel, self.qual, node, op, self.level(node), why, text, self.func.name)
 
     def _snap(self):
         return dict(self.env), dict(self.origin)
@@ -437,7 +440,15 @@ class _FuncWalker:
 
     # ---- expressions --------------------------------------------------------------------------
     def ev(self, e, truth: bool = False, at=None) -> str:
-        """Kind of expression ``e``; records may-raise sites.  ``truth``: only tested for truthiness."""
+        """Kind of expression ``e``; records may-raise sites.  ``truth``: the value is (also) tested for truthiness, which calls
+        __bool__ / __len__ of an arbitrary object (identity tests, comparisons and `key in event` yield plain bools and are safe)."""
+        k = self._ev(e, truth, at)
+        if truth and k == HOSTILE and e is not None and not isinstance(e, (ast.BoolOp, ast.Compare)) \
+                and not (isinstance(e, ast.UnaryOp) and isinstance(e.op, ast.Not)):
+            self.site(at or e, "truth", f"truth test of event-derived value {src(e)[:50]} (calls its __bool__ / __len__)")
+        return k
+
+    def _ev(self, e, truth: bool = False, at=None) -> str:
         an = self.an
         where = at or e
         if e is None:
@@ -483,8 +494,8 @@ class _FuncWalker:
         if isinstance(e, ast.BoolOp):
             k = None
             saved = dict(self.env)
-            for v in e.values:
-                k = worst(k, self.ev(v, truth=truth))
+            for i_, v in enumerate(e.values):
+                k = worst(k, self.ev(v, truth=truth or i_ < len(e.values) - 1))
                 if isinstance(e.op, ast.And):
                     for nm in _isinstance_names(v):
                         if self.env.get(nm) in (HOSTILE, EVENT):
